@@ -1640,7 +1640,14 @@ fn run_replay(ctx: &Ctx, path: &str) -> ! {
         None
     };
     let run = Run { ctx, u: &u, apex: lname(&u.apex_labels), verbose: true };
-    let sorted = sorted_of(&recs);
+    let sorted = match guard(|| sorted_of(&recs)) {
+        Ok(s) => s,
+        Err(p) => {
+            println!("SortedRecords::from_iter panicked: {p}");
+            ctx.violation(&format!("C13|sorted-records|panic|{}", panic_class(&p)), &format!("SortedRecords::from_iter panicked: {p}"), case.clone());
+            ctx.finish(json!({"evaluations": 1, "distinct_nontrivial": 0, "rule": "replay of one case", "samples": [case.clone()], "exhaustive": false}), &["replay of a single recorded case"]);
+        }
+    };
     let eff = check_sorted(&run, &recs, &sorted, &mut loc);
     let z = Zone::build_eff(&u, recs, &eff);
     if let Some(cfg) = n3 {
@@ -1773,13 +1780,17 @@ fn main() {
         for zi in [all1, nzones / 3, nzones - 1] {
             let (recs, _) = zone_of_index(&sl, zi);
             let z = Zone::build(&u, recs);
-            let sorted = sorted_of(&z.recs);
+            let Ok(sorted) = guard(|| sorted_of(&z.recs)) else { continue };
             let apex = lname(&u.apex_labels);
-            let nsec = generate_nsecs(&apex, sorted.owner_rrs(), &GenerateNsecConfig::new())
+            let nsec = guard(|| generate_nsecs(&apex, sorted.owner_rrs(), &GenerateNsecConfig::new()))
+                .map_err(|_| ())
+                .and_then(|r| r.map_err(|_| ()))
                 .map(|v| v.iter().map(|r| format!("{} NSEC {} [{}]", r.owner(), r.data().next_name(), r.data().types())).collect::<Vec<_>>())
                 .unwrap_or_default();
             let c = &n3runs[n3runs.len() / 2];
-            let nsec3 = generate_nsec3s(&apex, sorted.owner_rrs(), &c.lib)
+            let nsec3 = guard(|| generate_nsec3s(&apex, sorted.owner_rrs(), &c.lib))
+                .map_err(|_| ())
+                .and_then(|r| r.map_err(|_| ()))
                 .map(|v| v.nsec3s.iter().map(|r| format!("{} NSEC3 {}", r.owner(), r.data())).collect::<Vec<_>>())
                 .unwrap_or_default();
             samples.push(json!({"zone_index": zi, "zone": z.text(), "nsec_chain": nsec, "nsec3_cfg": c.cfg.json(), "nsec3_chain": nsec3}));
